@@ -359,8 +359,10 @@ func Rotate(seq Sequence, n int) Sequence {
 	}
 
 	m := Len(seq) - n
-	p := seq.Bytes()
-	p = append(p[m:], p[:m]...)
+	q := seq.Bytes()
+	p := make([]byte, 0, len(q))
+	p = append(p, q[m:]...)
+	p = append(p, q[:m]...)
 
 	seq = WithFeatures(seq, ff)
 	seq = WithBytes(seq, p)
